@@ -296,6 +296,27 @@ def inplace_consistency(rnd, obj, xa, desc):
     if not (same_float(float(m_in), float(m_fr)) and same_g):
         out.append(("not-a-function-of-the-point", f"{desc}: after moving the evaluated array in place to {[float(v) for v in buf.flatten()]} misfit / gradient are "
                     f"{float(m_in)} / {list(g_in)}, a fresh array with the same values gives {float(m_fr)} / {list(g_fr)}"))
+    # the argument is only read: a read-only array and a strided view into a larger array give the same values and stay as they are
+    ro = xa.copy()
+    ro.setflags(write=False)
+    big = numpy.zeros((2 * xa.shape[0], 2))
+    big[::2, 1] = xa[:, 0]
+    view = big[::2, 1:2]
+    with numpy.errstate(all="ignore"):
+        try:
+            want_m, want_g = obj.misfit(xa.copy()), numpy.asarray(obj.gradient(xa.copy()), dtype=float).flatten()
+        except Exception:  # noqa
+            return out
+        for name, arr in (("a read-only array", ro), ("a strided view", view)):
+            try:
+                m, g = obj.misfit(arr), numpy.asarray(obj.gradient(arr), dtype=float).flatten()
+            except Exception as e:  # noqa
+                out.append(("argument-not-read-only", f"{desc}: misfit / gradient at {name} raised {type(e).__name__}: {str(e)[:100]}"))
+                continue
+            if not (same_float(float(m), float(want_m)) and len(g) == len(want_g) and all(same_float(a, b) for a, b in zip(g, want_g))):
+                out.append(("not-a-function-of-the-point", f"{desc}: misfit / gradient at {name} are {float(m)} / {list(g)}, at a fresh contiguous copy {float(want_m)} / {list(want_g)}"))
+        if not (numpy.array_equal(big[::2, 1], xa[:, 0]) and not big[1::2].any() and not big[:, 0].any()):
+            out.append(("argument-modified", f"{desc}: evaluating misfit / gradient changed the array it was given (or its neighbours in memory)"))
     return out
 
 
